@@ -37,7 +37,7 @@ def bounds(tier):
 def goals(tier):
     return ["accepted-by-signature", "rejected-by-upstream-letter", "rejected-by-downstream-letter", "degenerate-signature-accepts",
             "degenerate-signature-rejects", "vector-part", "characterize-found", "characterize-runtimeerror", "characterize-concrete-root",
-            "characterize-several-candidates-accept", "other-kind-record", "signature-free-class-asked-first", "candidate-type-declared-after-first-use"]
+            "characterize-several-candidates-accept", "other-kind-record", "signature-free-class-asked-first", "candidate-type-declared-after-first-use", "every-presentation-of-a-plasmid", "linear-record-accepted", "linear-record-rejected", "characterize-every-presentation"]
 
 
 # ---------------------------------------------------------------------------------------------
@@ -115,14 +115,43 @@ def rotations_for(s, enz, kind, tier):
     return sorted(set(rots))
 
 
-def typed(cls, s):
-    e = cls(CircularRecord(Seq(s), id="c5"))
+def typed(cls, s, rec=None):
+    e = cls(CircularRecord(Seq(s), id="c5") if rec is None else rec)
     v = e.is_valid()
     if not isinstance(v, bool):
         return ("non-bool", repr(v))
     if not v:
         return (False,)
     return (True, str(e.overhang_start()), str(e.overhang_end()))
+
+
+def check_presentations(st, cls, sr, scn, pobs):
+    """the verdict (and the overhangs) of a plasmid cannot depend on the container it is handed over in"""
+    for pname, rec in gen.presentations(sr, "c5")[1:]:
+        try:
+            alt = typed(cls, sr, rec)
+        except Exception as e:
+            alt = ("raises", type(e).__name__, str(e)[:120])
+        st.scenario("presentation", None, nodes=0)
+        if pobs[0] is True:
+            st.nontrivial += 1
+        st.goal("every-presentation-of-a-plasmid")
+        if alt != pobs:
+            st.violation("typing", "verdict-depends-on-how-the-plasmid-is-handed-over-" + pname, dict(scn, presentation=pname), pobs, alt)
+    # the same text declared linear: accepted exactly when the structure can be read without crossing the ends
+    lin = rm.Matcher(cls.structure()).search(sr, circular=False)
+    exp = pobs if (lin is not None and pobs[0] is True) else (False,)
+    for pname, rec in gen.linear_presentations(sr, "c5"):
+        try:
+            alt = typed(cls, sr, rec)
+        except Exception as e:
+            alt = ("raises", type(e).__name__, str(e)[:120])
+        st.scenario("linear-presentation", None, nodes=0)
+        st.nontrivial += 1
+        st.goal("linear-record-accepted" if exp[0] is True else "linear-record-rejected")
+        if alt != exp:
+            st.violation("typing", "linear-record-read-across-its-ends-" + pname if alt[0] is True else "linear-record-verdict-" + pname,
+                         dict(scn, presentation=pname), exp, alt)
 
 
 def check_typing(st, cls, upsig, downsig, enz, kind, up, down, tier, scn_base, record_kind=None):
@@ -149,6 +178,8 @@ def check_typing(st, cls, upsig, downsig, enz, kind, up, down, tier, scn_base, r
             exp = False
             st.goal("generic-rejects")
         got = pobs[0] is True
+        if scn_base.get("presentations"):
+            check_presentations(st, cls, sr, scn, pobs)
         st.scenario("accept" if exp else "reject", None, calls=2)
         if gobs[0] is True:
             st.nontrivial += 1
@@ -248,7 +279,7 @@ def run_unit(unit, st, tier):
             st.goal("vector-part")
         for up in W:
             for down in W:
-                check_typing(st, cls, upsig, downsig, cls.cutter.__name__, k, up, down, tier, dict(family="kit", cls=arg))
+                check_typing(st, cls, upsig, downsig, cls.cutter.__name__, k, up, down, tier, dict(family="kit", cls=arg, presentations=True))
         # the order in which the property statement reads: the signature-free class is asked first, then the part class,
         # starting from classes that have not compiled anything yet (no priming by the harness)
         parents = [c for c in cls.__mro__[1:] if c in gen.kit_classes()]
@@ -382,6 +413,30 @@ def check_characterize(st, root, rootname, s, scn):
         st.goal("characterize-runtimeerror")
         if got[0] != "RuntimeError":
             st.violation("characterize", "no-runtimeerror-although-no-candidate-accepts", scn, "RuntimeError", [got[0], getattr(got[1], "__name__", str(got[1]))])
+    if scn.get("family") != "characterize":
+        return
+    # the same plasmid in every other legal presentation, and the same text declared linear (read at rotation 0 and with the
+    # origin moved into the structure, where a linear molecule cannot carry it)
+    n = len(s)
+    for text in (s, rm.rot_right(s, n - (gen.geometry_of(root.cutter).ov + len(gen.geometry_of(root.cutter).site)) // 2 - 1)):
+        acc_c = [c for c in cands if accepts_ref(c, text)]
+        acc_l = [c for c in acc_c if rm.Matcher(c.structure()).search(text, False) is not None]
+        todo = [(p, r, acc_c) for p, r in gen.presentations(text, "chr")[1:]] + [(p, r, acc_l) for p, r in gen.linear_presentations(text, "chr")]
+        for pname, prec, acc in todo:
+            try:
+                ent = root.characterize(prec)
+                got = ("entity", type(ent))
+            except RuntimeError as e:
+                got = ("RuntimeError", str(e)[:80])
+            except Exception as e:
+                got = ("raises", type(e).__name__ + ": " + str(e)[:80])
+            st.scenario("presentation-found" if acc else "presentation-none", None, nodes=0)
+            st.nontrivial += 1
+            st.goal("characterize-every-presentation")
+            ok = (got[0] == "entity" and got[1] in acc) if acc else got[0] == "RuntimeError"
+            if not ok:
+                st.violation("characterize", "answer-depends-on-how-the-record-is-handed-over-" + pname, dict(scn, presentation=pname, text=text),
+                             [c.__name__ for c in acc] or "RuntimeError", [got[0], getattr(got[1], "__name__", str(got[1]))])
 
 
 def unit_late_subclass(st, replaying=False):
@@ -499,3 +554,5 @@ def replay(scn, sub, st):
         st.violation(sub, "verdict", scn, exp, pobs)
     elif exp and (pobs[1].upper(), pobs[2].upper()) != (gobs[1].upper(), gobs[2].upper()):
         st.violation(sub, "part-reports-other-overhangs-than-generic", scn, gobs, pobs)
+    if scn.get("presentations"):
+        check_presentations(st, cls, sr, scn, pobs)
